@@ -15,6 +15,9 @@ Theorem v_equiv_sv : forall e, 0 <= var e "i_f_data" < 256 -> (var e "i_rst" = 0
   same_at e RtlV.design RtlSv.design.
 Proof. exact (proc_equiv_check_sound _ _ check_v_sv). Qed.
 
+Theorem v_clocking_sv : clocking RtlV.design = clocking RtlSv.design.
+Proof. exact (proc_equiv_check_clocking _ _ check_v_sv). Qed.
+
 (* the copy kept for synthesis is the same design as verilog/processor.v (today the two elaborate to the very same
    value; stated behaviourally so that a harmless textual difference between the copies is not an alarm) *)
 Lemma check_vsynth_v : proc_equiv_check RtlVSynth.design RtlV.design = true.
@@ -23,6 +26,9 @@ Proof. vm_compute. reflexivity. Qed.
 Theorem vsynth_equiv_v : forall e, 0 <= var e "i_f_data" < 256 -> (var e "i_rst" = 0 \/ var e "i_rst" = 1) ->
   same_at e RtlVSynth.design RtlV.design.
 Proof. exact (proc_equiv_check_sound _ _ check_vsynth_v). Qed.
+
+Theorem vsynth_clocking_v : clocking RtlVSynth.design = clocking RtlV.design.
+Proof. exact (proc_equiv_check_clocking _ _ check_vsynth_v). Qed.
 
 (* ---- non-vacuity: the designs have the expected interface, compute something, and the checker discriminates *)
 Definition names (l : list (string * vexp)) : list string := map fst l.
@@ -52,7 +58,7 @@ Fixpoint break_add (x : vexp) : vexp :=
   end.
 Definition broken (d : design) : design :=
   {| outputs := outputs d; next := map (fun p => (fst p, break_add (snd p))) (next d); wires := wires d;
-     mem_writes := mem_writes d; nx := nx d |}.
+     mem_writes := mem_writes d; clocking := clocking d; nx := nx d |}.
 Lemma checker_discriminates : proc_equiv_check (broken RtlSv.design) RtlSv.design = false /\
   map fst (proc_equiv_failures (broken RtlSv.design) RtlSv.design) = [209].
 Proof. split; vm_compute; reflexivity. Qed.
